@@ -353,7 +353,7 @@ func (p *Proxy) handleCONNECT(r responder.Responder, proxyReq *http.Request) err
 		req.Close = true
 		// A fresh responder per request: it accumulates the status, headers and
 		// Content-Length of the response under construction.
-		tunnelResponder := responder.NewRawHTTPResponder(tlsConn)
+		tunnelResponder := responder.NewRawHTTPResponder(tlsConn).ForRequest(req)
 		if err := p.handleHTTP(tunnelResponder, req); err != nil {
 			slog.Error("Error processing HTTP request in CONNECT tunnel", "host", proxyReq.Host, "error", err)
 		}
